@@ -65,6 +65,19 @@ def main():
     sys.meta_path.insert(0, Logger())
     sys.meta_path.insert(0, Blocker())
 
+    if job.get('no_dist_info'):
+        # the package is used from a source tree / vendored copy: no installed distribution metadata for it
+        import importlib.metadata as _md
+        _orig_from_name = _md.Distribution.from_name.__func__
+
+        def _from_name(cls, name):
+            if str(name).lower().replace('_', '-') == 'soupsieve':
+                res.setdefault('dist_info_lookups', 0)
+                res['dist_info_lookups'] += 1
+                raise _md.PackageNotFoundError(name)
+            return _orig_from_name(cls, name)
+        _md.Distribution.from_name = classmethod(_from_name)
+
     caught = []
 
     def showwarning(message, category, filename, lineno, file=None, line=None):
